@@ -99,3 +99,24 @@ pub unsafe fn u128_fmt<'a>(_v: u128, _buf: &'a mut [core::mem::MaybeUninit<u8>])
 pub unsafe fn u64_fmt<'a>(_v: u64, _buf: &'a mut [core::mem::MaybeUninit<u8>]) -> &'a str {
     ""
 }
+
+/// Specification of `<u128 as MulDiv>::checked_mul_div` (its exactness is property C01's subject):
+/// `floor(x * n / d)`, `None` when `d == 0`. Only defined for operands below 2^32 (the product then
+/// fits in u64 and the quotient always fits); the harnesses using this stub bound their operands
+/// accordingly, and outside that range the stub panics instead of answering. The arithmetic is
+/// done in u64 so that the solver sees a 64-bit divider instead of a 128-bit one.
+pub fn mul_div_spec(x: &u128, n: &u128, d: &u128) -> Option<u128> {
+    const LIM: u128 = 1 << 32;
+    assert!(*x < LIM && *n < LIM && *d < LIM, "mul_div_spec: operands outside the range where the stub is defined");
+    if *d == 0 {
+        return None;
+    }
+    let p = (*x as u64) * (*n as u64);
+    Some((p / (*d as u64)) as u128)
+}
+pub fn lp_error_name(_e: &gmsol_liquidity_provider::ErrorCode) -> String {
+    String::new()
+}
+pub fn fmt_lp_error(_e: &gmsol_liquidity_provider::ErrorCode, _f: &mut std::fmt::Formatter<'_>) -> std::fmt::Result {
+    Ok(())
+}
